@@ -163,7 +163,9 @@ func gateLen(script []Tok, k int) int {
 	return n
 }
 
-func terminated(script []Tok) bool { return gateLen(script, len(script)) > 0 && script[gateLen(script, len(script))-1].kind != 'N' }
+func terminated(script []Tok) bool {
+	return gateLen(script, len(script)) > 0 && script[gateLen(script, len(script))-1].kind != 'N'
+}
 
 func recStrings(rec *Recorder) (trace, drops, unh string) {
 	rec.mu.Lock()
@@ -304,7 +306,9 @@ func runToChannel(rec *Recorder, script []Tok, capacity int, mode string, cut in
 	esc := &escapes{}
 	var sub ro.Subscription
 	goroutines := runtime.NumGoroutine()
-	esc.run(func() { sub = ro.ToChannel[int](capacity)(src.Observable()).SubscribeWithContext(subCtx, chanObserver(rec, rd)) })
+	esc.run(func() {
+		sub = ro.ToChannel[int](capacity)(src.Observable()).SubscribeWithContext(subCtx, chanObserver(rec, rd))
+	})
 	if sub == nil {
 		return "subscribe-failed escaped=" + esc.String()
 	}
